@@ -202,6 +202,8 @@ def fmt_iprogram(nv, funcs, opts=(), init=None):
 
 
 CORPUS_TD = [
+    # an entry function that is recursive was analysed from the initial value only (fixed defects inter-6 / inter-7)
+    "inter 1 3 | F 0 4 3 I 1 0 O 1 1 | B 0 1 assume C le E 1 -1 0 1 ; arith sub 2 0 k 1 ; call 0 1 1 1 2 | B 0 2 assume C le E 1 1 0 0 ; assign 1 E 0 0 | E 0 0 1 0 2 1 3 2 3 | I C le E 1 1 0 -5 C le E 1 -1 0 5",
     # caller and callee share names, arguments swapped (fixed defect: sequential unification)
     "inter 2 4 | F 0 1 0 I 0 O 0 | F 1 1 0 I 2 0 1 O 1 2 | B 0 0 assign 0 E 0 1 ; assign 1 E 0 10 ; call 1 1 3 2 1 0 | B 1 0 arith sub 2 0 v 1",
     # the lhs of the callsite has the name of a formal input of the callee (fixed defect)
